@@ -148,3 +148,20 @@ def _managers_case():
 CONTRACTS.append(Contract("wntr.sim.core:WNTRSimulator._get_control_managers", P, [_managers_case()],
                           note="one control of every type from every origin; ControlChecker.register_control is executed from its source",
                           trusted=["the four _get_*_controls builders (own contracts)"]))
+
+
+# ---------------------------------------------------------------------------- bounded: reported states vs the simple conditional controls, on the real simulator
+
+from pyvc.runner import Bounded
+
+
+def _consistency(i, n):
+    def run(tier, seed):
+        import sys, os
+        sys.path.insert(0, os.path.dirname(os.path.dirname(os.path.abspath(__file__))))
+        from bounded import c05_consistency
+        return c05_consistency.run(tier, seed, i, n)
+    return run
+
+
+BOUNDED = [Bounded("C05.conditional_consistency[%d/4]" % i, ["C05"], _consistency(i, 4), kind="real simulator on listed / generated networks (not exhaustive)") for i in range(4)]
